@@ -7,7 +7,7 @@ against it and prints every NEW failing obligation (= false alarm). Stores confi
 """
 import json, os, shutil, subprocess, sys, tempfile
 
-ENV = dict(os.environ, GOFLAGS="-mod=mod", GOPROXY="off", GOSUMDB="off", GOTOOLCHAIN="local")
+ENV = dict(os.environ, VERIF_NO_CONTROLS="1", GOFLAGS="-mod=mod", GOPROXY="off", GOSUMDB="off", GOTOOLCHAIN="local")
 ENV.pop("GOWORK", None)
 VERIF = "/verif"
 
